@@ -5647,15 +5647,23 @@ func (t *Terminal) Loop() error {
 					t.track = trackCurrent
 				}
 				req(reqInfo)
-			case actShowHeader:
-				t.headerVisible = true
-				req(reqList, reqInfo, reqPrompt, reqHeader)
-			case actHideHeader:
-				t.headerVisible = false
-				req(reqList, reqInfo, reqPrompt, reqHeader)
-			case actToggleHeader:
-				t.headerVisible = !t.headerVisible
-				req(reqList, reqInfo, reqPrompt, reqHeader)
+			case actShowHeader, actHideHeader, actToggleHeader:
+				wasVisible := t.headerVisible
+				switch a.t {
+				case actShowHeader:
+					t.headerVisible = true
+				case actHideHeader:
+					t.headerVisible = false
+				default:
+					t.headerVisible = !t.headerVisible
+				}
+				if t.headerVisible != wasVisible && t.layout == layoutReverseList {
+					// The rows of the list, the header and the input section all change
+					// place; rows that are given up are not cleared by a partial repaint
+					req(reqFullRedraw)
+				} else {
+					req(reqList, reqInfo, reqPrompt, reqHeader)
+				}
 			case actToggleWrap:
 				t.wrap = !t.wrap
 				t.clearNumLinesCache()
